@@ -222,7 +222,11 @@ impl Lexer {
                 "limit" => Some(Lexem::Limit),
                 "into" => Some(Lexem::Into),
                 "eq" | "ne" | "gt" | "lt" | "ge" | "le" | "gte" | "lte" | "regexp" | "rx"
-                | "like" | "between" | "eeq" | "ene" | "notrx" | "notlike" => Some(Lexem::Operator(s)),
+                | "like" | "between" | "eeq" | "ene" | "notrx" | "notlike"
+                    if self.before_from || self.after_where =>
+                {
+                    Some(Lexem::Operator(s))
+                }
                 "mul" | "div" | "mod" | "plus" | "minus" => Some(Lexem::ArithmeticOperator(s)),
                 _ => Some(Lexem::RawString(s)),
             },
